@@ -64,6 +64,19 @@ def cases(draw, tier):
     keys = draw(st.lists(st.sampled_from(KEY_WORDS), min_size=12, max_size=12, unique=True))
     case = {"kind": kind, "ir": ir, "bits": bits, "keys": keys, "cfg": {"literal_enums": draw(st.booleans())}}
     if kind == "schemas":
+        flat = [n for n, sc in ir["schemas"] if sc["k"] == "object" and not sc.get("allOf")]
+        if flat and draw(st.integers(0, 2)) == 0:
+            # a top-level array component whose inline item composes a component (item objects of such arrays are built at another
+            # time than model properties), declared before or after the component it composes
+            tgt = draw(st.sampled_from(flat))
+            rows = ["ZzRows", {"k": "array", "items": {"k": "object", "props": [["rowNote", {"k": "str"}, draw(st.booleans())]], "addl": None,
+                                                       "allOf": [{"k": "ref", "name": tgt}]}}]
+            if draw(st.booleans()):
+                ir["schemas"].insert(0, rows)
+            else:
+                ir["schemas"].append(rows)
+            if ir["ops"]:
+                draw(st.sampled_from(ir["ops"]))["responses"].append([207, ["application/json", {"k": "ref", "name": "ZzRows"}]])
         if draw(st.booleans()):
             # forward references: every allOf child is declared before its parent
             order = [n for n, _ in ir["schemas"]]
